@@ -99,7 +99,7 @@ def expand(case, tier):
   if "spec" in case:
     return case
   rnd = random.Random(case["seed"] * 1000003 + case["idx"] * 7919 + 19)
-  spec = opmodels.gen_spec(rnd)
+  spec = opmodels.gen_spec(rnd, "narrow_merge" if case["idx"] % 40 == 7 else None)
   auto = opmodels.uses_auto_po2(spec)
   for_ref = rnd.random() < 0.15
   opts = {
@@ -450,6 +450,36 @@ def check_energy_all(ctx, st, case, model, layers, q, nodes, cfg):
     for i in n["in"]:
       consumers.setdefault(i, []).append(n["name"])
   src_bits = [float(s["bits"]) for s in od.get("source_quantizers", [])]
+  # bit widths: the report (QTools._output_dict) is the contract; the live type objects are what
+  # energy_estimate reads.  A difference is a violation of its own kind, after which the live
+  # value is used so that the remaining formula checks do not cascade.
+  out_bits = {}
+  in_bits = {}
+  for name, n in nodes.items():
+    if n["kind"] == "input" or name not in od:
+      continue
+    item = lmap.get(layers[name])
+    rep = od[name]
+    pairs = []
+    roq, loq = rep.get("output_quantizer"), qtools_util.get_val(item, "output_quantizer")
+    out_bits[name] = float(roq["bits"]) if roq else None
+    if roq and loq is not None:
+      pairs.append(("output", roq, loq))
+    lst = qtools_util.get_val(item, "input_quantizer_list") or []
+    in_bits[name] = [float(x["bits"]) for x in rep.get("input_quantizer_list", [])]
+    for k, (r_, l_) in enumerate(zip(rep.get("input_quantizer_list", []), lst)):
+      pairs.append(("input", r_, l_))
+    for tensor, r_, l_ in pairs:
+      ctx.evals(1)
+      if float(r_["bits"]) != float(l_.bits):
+        ctx.violation({"part": "energy", "kind": "reported_bits_differ_from_bits_used", "tensor": tensor,
+                       "quantizer_type": r_.get("quantizer_type")},
+                      "%s (%s): %s type reported as %r but the type object energy_estimate reads has bits=%r" % (
+                          name, n["cls"], tensor, dict(r_), l_.bits), None)
+    if roq and loq is not None:
+      out_bits[name] = float(loq.bits)
+    if len(lst) == len(in_bits[name]):
+      in_bits[name] = [float(x.bits) for x in lst]
   info = {}
   for name, n in nodes.items():
     if n["kind"] == "input" or name not in od:
@@ -463,8 +493,7 @@ def check_energy_all(ctx, st, case, model, layers, q, nodes, cfg):
         j = spec["inputs"].index(i)
         prod_bits.append(src_bits[j] if j < len(src_bits) else None)
       else:
-        oq = od.get(i, {}).get("output_quantizer")
-        prod_bits.append(float(oq["bits"]) if oq else None)
+        prod_bits.append(out_bits.get(i))
     info[name] = {
         "n": n, "item": item, "rep": rep, "cls": n["cls"],
         "is_in": any(nodes[i]["kind"] == "input" for i in n["in"]),
@@ -472,7 +501,8 @@ def check_energy_all(ctx, st, case, model, layers, q, nodes, cfg):
         "consumed": name in consumers,
         "in_shapes": [nodes[i]["shape"] for i in n["in"]],
         "prod_bits": prod_bits,
-        "list_bits": [float(x["bits"]) for x in rep.get("input_quantizer_list", [])],
+        "list_bits": in_bits[name],
+        "out_bits": out_bits[name],
         "gv": (lambda key, it=item: qtools_util.get_val(it, key)),
     }
   fp_gate = False
@@ -682,13 +712,13 @@ def check_energy(ctx, spy, info, nodes, e, wm, am, io_, ms):
     raw_out = seg["write"]["ret"]
     oq = inf["rep"].get("output_quantizer")
     if oq:
-      ref_out = E.mem_write(inf["is_out"], ops.numel(inf["n"]["shape"]), float(oq["bits"]), am, ms, io_)[0]
+      ref_out = E.mem_write(inf["is_out"], ops.numel(inf["n"]["shape"]), inf["out_bits"], am, ms, io_)[0]
       a = seg["write"]["args"]
       if inf["is_out"] and inf["consumed"] and not a["io"]:
         # qtools' graph treats only layers without consumers as output layers
         ctx.observe("model output that is also consumed by another layer is not written as an output tensor",
                     {"layer": name, "cls": cls})
-        ref_out = E.mem_write(False, ops.numel(inf["n"]["shape"]), float(oq["bits"]), am, ms, io_)[0]
+        ref_out = E.mem_write(False, ops.numel(inf["n"]["shape"]), inf["out_bits"], am, ms, io_)[0]
       elif (a["io"], a["mode"], a["min_sram_size"], a["rd_wr_on_io"]) != (inf["is_out"], am, ms, io_):
         ctx.violation(dict(base, kind="memory_call_arguments_differ", tensor="output"),
                       "%s: write called with %r; layer is_output=%r placement=%r" % (name, a, inf["is_out"], (am, ms, io_)), None)
@@ -699,7 +729,7 @@ def check_energy(ctx, spy, info, nodes, e, wm, am, io_, ms):
       elif not close(raw_out, ref_out):
         ctx.violation(dict(base, kind="entry_differs_from_formula", entry="outputs"),
                       "%s outputs: recorded %r, formula %r (%d elements x %r bits)" % (
-                          name, raw_out, ref_out, ops.numel(inf["n"]["shape"]), oq["bits"]),
+                          name, raw_out, ref_out, ops.numel(inf["n"]["shape"]), inf["out_bits"]),
                       {"placement": [wm, am, io_, ms]})
     # ---- parameters
     raw_par = seg["param"]["ret"]
